@@ -235,6 +235,7 @@ crate::harnesses! {
 
     /// u32: [sign +] exactly 10 symbolic digits (4-digit SWAR path, overflow edge 4294967295/6), symbolic no_multi_digit.
     /// @prop C04 C10
+    /// @tier thorough
     /// @feat default
     /// @bound inputs of the shape [0-9]{10}, both no_multi_digit settings
     /// @fn lexical-parse-integer::algorithm::algorithm_complete[u32] (parse_digits_checked / try_parse_4digits)
@@ -264,6 +265,7 @@ crate::harnesses! {
 
     /// u32: 6 symbolic digits with leading zeros region (no overflow possible): unchecked SWAR path only.
     /// @prop C04 C10 C16
+    /// @tier thorough
     /// @feat default
     /// @bound inputs of the shape [0-9]{6}
     /// @fn lexical-parse-integer::algorithm::algorithm_complete[u32] (parse_digits_unchecked)
